@@ -81,7 +81,13 @@ def collect():
     d('lockAssignments', 'Nat', str(li['assignments']))
     d('lockAssignedIn', 'String', lean_str(li['where']))
     d('lockReferences', 'Nat', str(li['references']))
-    d('clientExecuteViaManager', 'Bool', 'true' if client_execute_info() else 'false')
+    ci = client_lock_info()
+    d('clientExecuteViaManager', 'Bool', 'true' if ci['via_manager'] else 'false')
+    d('clientLockScope', 'String', lean_str(ci['scope']))
+    d('clientLockCtor', 'String', lean_str(ci['ctor']))
+    d('clientLockAssignments', 'Nat', str(ci['assignments']))
+    d('clientLockAssignedIn', 'String', lean_str(ci['where']))
+    d('clientLockReferences', 'Nat', str(ci['references']))
 
     # C09/C10/C12/C17: the structure of the seven server front-ends, read off the source by ast
     d('serverStructure', 'List (String × Bool × String × Bool × Bool × Bool × Bool)',
@@ -249,17 +255,85 @@ def lock_scope_info(path=None):
 
 def client_execute_info():
     """does `BaseModbusClient.execute` end in `return self.transaction.execute(request)` (one shared manager)"""
+    return client_lock_info()['via_manager']
+
+
+def client_lock_info(path=None):
+    """C15: the client-side lock of `BaseModbusClient.execute`, read off the SOURCE (ast): is the whole body of
+    `execute` one `with self._connect_lock:` that contains both the `self.connect()` call and the
+    `return self.transaction.execute(request)`; is `_connect_lock` assigned exactly once (in `__init__`) to a plain
+    `RLock()`; how often is the attribute mentioned in the module."""
     import ast
-    import pymodbus.client.sync as _s
-    tree = ast.parse(open(_s.__file__).read())
+    if path is None:
+        import pymodbus.client.sync as _s
+        path = _s.__file__
+    tree = ast.parse(open(path).read())
+
+    def is_lock_attr(n):
+        return isinstance(n, ast.Attribute) and n.attr == '_connect_lock'
+
+    def mentions_lock(n):
+        return any(is_lock_attr(x) for x in ast.walk(n))
+
+    def calls(n, what):
+        return any(isinstance(x, ast.Call) and ast.unparse(x.func).replace(' ', '') == what for x in ast.walk(n))
+
+    assigns = []
+    for fn in ast.walk(tree):
+        if isinstance(fn, ast.FunctionDef):
+            for n in ast.walk(fn):
+                targets = []
+                if isinstance(n, ast.Assign):
+                    targets = n.targets
+                elif isinstance(n, (ast.AugAssign, ast.AnnAssign)):
+                    targets = [n.target]
+                for t in targets:
+                    if any(is_lock_attr(x) for x in ast.walk(t)):
+                        assigns.append((fn.name, ast.unparse(n.value) if getattr(n, 'value', None) is not None else '?'))
+    refs = sum(1 for x in ast.walk(tree) if is_lock_attr(x))
+    ctor = assigns[0][1] if len(assigns) == 1 else ';'.join(a[1] for a in assigns) or 'none'
+    if ctor == 'threading.RLock()':
+        ctor = 'RLock()'
+    where = assigns[0][0] if len(assigns) == 1 else (','.join(a[0] for a in assigns) or 'nowhere')
+    out = dict(scope='no-execute', ctor=ctor, assignments=len(assigns), where=where, references=refs, via_manager=False)
     for c in tree.body:
         if isinstance(c, ast.ClassDef) and c.name == 'BaseModbusClient':
             for f in c.body:
                 if isinstance(f, ast.FunctionDef) and f.name == 'execute':
-                    last = f.body[-1]
-                    return isinstance(last, ast.Return) and last.value is not None and \
-                        ast.unparse(last.value).replace(' ', '') == 'self.transaction.execute(request)'
-    return False
+                    out['via_manager'] = any(
+                        isinstance(x, ast.Return) and x.value is not None and
+                        ast.unparse(x.value).replace(' ', '') == 'self.transaction.execute(request)' for x in ast.walk(f))
+                    body = list(f.body)
+                    if body and isinstance(body[0], ast.Expr) and isinstance(getattr(body[0], 'value', None), ast.Constant) \
+                            and isinstance(body[0].value.value, str):
+                        body = body[1:]
+                    scope = None
+                    if len(body) == 1 and isinstance(body[0], ast.With) and len(body[0].items) == 1:
+                        w = body[0]
+                        ce = w.items[0].context_expr
+                        inner = ast.Module(body=w.body, type_ignores=[])
+                        both = calls(inner, 'self.connect') and calls(inner, 'self.transaction.execute')
+                        if is_lock_attr(ce) and isinstance(ce.value, ast.Name) and ce.value.id == 'self':
+                            scope = 'whole' if both else 'other:with-body'
+                        elif isinstance(ce, ast.Subscript) and is_lock_attr(ce.value):
+                            scope = 'perKey:' + ast.unparse(ce.slice)
+                        elif mentions_lock(ce):
+                            scope = 'other:' + ast.unparse(ce)
+                    if scope is None:
+                        withs = [n for n in ast.walk(f) if isinstance(n, ast.With)
+                                 and any(mentions_lock(i.context_expr) for i in n.items)]
+                        if len(withs) == 1 and any(is_lock_attr(i.context_expr) for i in withs[0].items):
+                            inner = ast.Module(body=withs[0].body, type_ignores=[])
+                            if calls(inner, 'self.connect') and not calls(inner, 'self.transaction.execute'):
+                                scope = 'connectOnly'
+                            else:
+                                scope = 'partial'
+                        elif withs or mentions_lock(f):
+                            scope = 'partial'
+                        else:
+                            scope = 'none'
+                    out['scope'] = scope
+    return out
 
 
 def render():
